@@ -206,6 +206,10 @@ pub struct Outcome {
     pub superseded: bool,
     /// the tuning of the first key input was applied
     pub tuned: bool,
+    /// key hashes declared (set_required_signers) for native scripts supplied through reference inputs
+    pub declared_signers: Vec<Vec<u8>>,
+    /// every script use carries the same unit redeemer (no markers: uses are told apart by pointer only)
+    pub unit_redeemers: bool,
     /// (Plutus input, the reference input declared to carry its datum)
     pub datum_refs: Vec<((Vec<u8>, u64), (Vec<u8>, u64))>,
     /// certificates in the order of their first successful registration
@@ -234,6 +238,10 @@ pub struct Scn<'a> {
     pub superseded: bool,
     /// the tuning of the first key input was applied
     pub tuned: bool,
+    /// key hashes declared (set_required_signers) for native scripts supplied through reference inputs
+    pub declared_signers: Vec<Vec<u8>>,
+    /// every script use carries the same unit redeemer (no markers: uses are told apart by pointer only)
+    pub unit_redeemers: bool,
     /// (Plutus input, the reference input declared to carry its datum)
     pub datum_refs: Vec<((Vec<u8>, u64), (Vec<u8>, u64))>,
     /// certificates in the order of their first successful registration
@@ -260,7 +268,7 @@ pub fn val_to_csl(v: &Val) -> Value {
 impl<'a> Scn<'a> {
     pub fn new(r: &'a mut Rng, ring: &'a KeyRing, f: Focus) -> Scn<'a> {
         let net = r.below(2) as u8;
-        Scn { r, ring, f, utxos: vec![], log: vec![], markers: vec![], next_marker: 1000, next_tx: 1, declared_refs: vec![], net, used_langs: vec![], panics: vec![], extra_signers: vec![], superseded: false, tuned: false, datum_refs: vec![], cert_order: vec![], verbatim_datums: false }
+        Scn { r, ring, f, utxos: vec![], log: vec![], markers: vec![], next_marker: 1000, next_tx: 1, declared_refs: vec![], net, used_langs: vec![], panics: vec![], extra_signers: vec![], superseded: false, tuned: false, declared_signers: vec![], unit_redeemers: false, datum_refs: vec![], cert_order: vec![], verbatim_datums: false }
     }
     fn p(&mut self, num: u64) -> bool {
         self.r.below(16) < num
@@ -411,6 +419,13 @@ impl<'a> Scn<'a> {
         (m, d)
     }
     pub fn redeemer(&mut self, tag: RedeemerTag) -> (u64, Redeemer) {
+        if self.unit_redeemers {
+            // the same "unit" redeemer and budget for every script use of the transaction: what tells two
+            // uses apart is their purpose and position only
+            let d = PlutusData::new_empty_constr_plutus_data(&BigNum::from(0u64));
+            let eu = ExUnits::new(&BigNum::from(1_000u64), &BigNum::from(2_000_000u64));
+            return (u64::MAX, Redeemer::new(&tag, &BigNum::from(0u64), &d, &eu));
+        }
         let (m, d) = self.marker_data();
         let eu = ExUnits::new(&BigNum::from(self.r.below(2_000_000)), &BigNum::from(self.r.below(900_000_000)));
         // the index given here is a placeholder the builder must replace
@@ -464,14 +479,40 @@ impl<'a> Scn<'a> {
         // declared as the library itself would compute it for an output carrying the script
         (u.ref_script_size as usize) + 4
     }
+    /// the signers a caller declares for a native script behind a reference input: all its keys, or - every
+    /// use of the script may declare its own - just one of them (enough for an "any" / "at least 1" script)
+    fn declare_signers(&mut self, s: &NativeScript, partial_ok: bool) -> Ed25519KeyHashes {
+        let all = Ed25519KeyHashes::from(s);
+        let mut out = Ed25519KeyHashes::new();
+        if partial_ok && all.len() >= 2 && self.p(8) {
+            out.add(&all.get(self.r.usize(all.len())));
+        } else {
+            for i in 0..all.len() {
+                out.add(&all.get(i));
+            }
+        }
+        for i in 0..out.len() {
+            let b = out.get(i).to_bytes();
+            if !self.declared_signers.contains(&b) {
+                self.declared_signers.push(b);
+            }
+        }
+        out
+    }
     pub fn native_source(&mut self, script_ix: usize) -> NativeScriptSource {
+        self.native_source_ex(script_ix, false)
+    }
+    /// `partial_ok`: this use may declare only one of the script's keys (inputs: every input keeps its own
+    /// witness, the declarations of all inputs of one script add up)
+    pub fn native_source_ex(&mut self, script_ix: usize, partial_ok: bool) -> NativeScriptSource {
         let s = self.ring.natives[script_ix].clone();
         let h = s.hash().to_bytes();
         if let Some((_, o)) = self.declared_refs.iter().find(|(hh, _)| *hh == h) {
             let o = o.clone();
             let size = self.ref_size_for(&o);
             let mut src = NativeScriptSource::new_ref_input(&s.hash(), &Self::tx_input(&o), size);
-            src.set_required_signers(&Ed25519KeyHashes::from(&s));
+            let declared = self.declare_signers(&s, partial_ok);
+            src.set_required_signers(&declared);
             return src;
         }
         let already_inline = self.log.iter().any(|l| l.contains(&format!("inline-script {}", hx(&h))));
@@ -487,7 +528,8 @@ impl<'a> Scn<'a> {
             let size = self.ref_size_for(&o);
             self.log.push(format!("ref-script {} at {}#{} size {}", hx(&h), hx(&o.0), o.1, size));
             let mut src = NativeScriptSource::new_ref_input(&s.hash(), &Self::tx_input(&o), size);
-            src.set_required_signers(&Ed25519KeyHashes::from(&s));
+            let declared = self.declare_signers(&s, partial_ok);
+            src.set_required_signers(&declared);
             src
         } else {
             self.log.push(format!("inline-script {}", hx(&h)));
@@ -610,6 +652,7 @@ pub fn run_scenario(r: &mut Rng, ring: &KeyRing, f: Focus) -> Option<Outcome> {
     let params = gen_params(r, &f);
     let (cfg, _flags) = make_config(&params, r);
     let mut s = Scn::new(r, ring, f.clone());
+    s.unit_redeemers = s.p(2);
     let mut tb = TransactionBuilder::new(&cfg);
     let mut inputs_b = TxInputsBuilder::new();
     let change_k = s.key_ix();
@@ -1083,6 +1126,12 @@ pub fn run_scenario(r: &mut Rng, ring: &KeyRing, f: Focus) -> Option<Outcome> {
             s.log.push(format!("proposal deposit={} guarded={} -> {}", deposit, needs_script, res.as_ref().map(ok_str).unwrap_or("PANIC".into())));
             if let Some(Ok(())) = res {
                 need_coin += deposit as u128;
+                if !needs_script && s.p(3) {
+                    // the identical proposal once more: proposals are a set, the body holds it once and its
+                    // deposit is owed once, whatever the second call answers
+                    let r2 = g!(s, "proposals.add(again)", pb.add(&prop));
+                    s.log.push(format!("the same proposal added again -> {}", r2.as_ref().map(ok_str).unwrap_or("PANIC".into())));
+                }
             }
         }
         g!(s, "set_voting_proposal_builder", tb.set_voting_proposal_builder(&pb));
@@ -1091,8 +1140,14 @@ pub fn run_scenario(r: &mut Rng, ring: &KeyRing, f: Focus) -> Option<Outcome> {
     // ---------------------------------------------------------------- misc fields
     if s.p(5) {
         let mut md = GeneralTransactionMetadata::new();
-        md.insert(&BigNum::from(674u64), &TransactionMetadatum::new_text("hello".into()).unwrap());
-        if s.r.bool() {
+        // now and then EMPTY metadata / auxiliary data: whatever the body announces must be what the transaction carries
+        let empty = s.p(3);
+        if !empty {
+            md.insert(&BigNum::from(674u64), &TransactionMetadatum::new_text("hello".into()).unwrap());
+        }
+        if empty && s.r.bool() {
+            g!(s, "set_auxiliary_data(empty)", tb.set_auxiliary_data(&AuxiliaryData::new()));
+        } else if s.r.bool() {
             g!(s, "set_metadata", tb.set_metadata(&md));
         } else {
             let mut aux = AuxiliaryData::new();
@@ -1107,7 +1162,7 @@ pub fn run_scenario(r: &mut Rng, ring: &KeyRing, f: Focus) -> Option<Outcome> {
             }
             g!(s, "set_auxiliary_data", tb.set_auxiliary_data(&aux));
         }
-        s.log.push("aux data set".into());
+        s.log.push(format!("aux data set{}", if empty { " (empty)" } else { "" }));
     }
     if s.p(5) {
         g!(s, "set_ttl", tb.set_ttl_bignum(&BigNum::from(s.r.wide_u64())));
@@ -1270,7 +1325,7 @@ pub fn run_scenario(r: &mut Rng, ring: &KeyRing, f: Focus) -> Option<Outcome> {
                     s.log.push(format!("native input n{} skipped (script already declared as reference)", si));
                     continue;
                 } else {
-                    let src = s.native_source(si);
+                    let src = s.native_source_ex(si, true);
                     let u = s.csl_utxo(i, None, None);
                     let _ = g!(s, "inputs.add_native_script_utxo", inputs_b.add_native_script_utxo(&u, &src));
                 }
@@ -1578,7 +1633,7 @@ pub fn run_scenario(r: &mut Rng, ring: &KeyRing, f: Focus) -> Option<Outcome> {
         balance_result,
         build_result,
         tx_bytes,
-        markers: s.markers,
+        markers: if s.unit_redeemers { vec![] } else { s.markers },
         log: s.log,
         fee_mode,
         inputs_at_hash_time: cost_models.as_ref().map(|x| x.1.clone()),
@@ -1594,6 +1649,8 @@ pub fn run_scenario(r: &mut Rng, ring: &KeyRing, f: Focus) -> Option<Outcome> {
         extra_signers: s.extra_signers,
         superseded: s.superseded,
         tuned: s.tuned,
+        declared_signers: s.declared_signers,
+        unit_redeemers: s.unit_redeemers,
         datum_refs: s.datum_refs,
         cert_order: s.cert_order,
         verbatim_datums: s.verbatim_datums,
@@ -1679,10 +1736,10 @@ pub fn native_script_signers(tx: &Transaction, o: &Outcome, ring: &KeyRing) -> s
             add(&nss.get(i));
         }
     }
-    for (h, _) in &o.declared_refs {
-        if let Some(ns) = ring.natives.iter().find(|n| n.hash().to_bytes() == *h) {
-            add(ns);
-        }
+    let _ = ring;
+    // scripts behind reference inputs: the keys their uses declared (the union over all uses)
+    for k in &o.declared_signers {
+        out.insert(k.clone());
     }
     out
 }
